@@ -2,6 +2,7 @@
 
 unparse   every file replaced by ast.unparse(ast.parse(src)): comments gone, layout / quoting / parentheses normalised
 rename    every local variable (not parameters) of every simple function gets a new spelling
+log       a `logger.debug(...)` line at the start of every function of every module that has a module-level `logger`
 
 A check must report exactly what it reports on the real tree (the known findings included, under the same keys).
 """
@@ -42,8 +43,19 @@ class _Ren(ast.NodeTransformer):
     visit_AsyncFunctionDef = visit_FunctionDef
 
 
+class _Log(ast.NodeTransformer):
+    def visit_FunctionDef(self, node):
+        self.generic_visit(node)
+        stmt = ast.parse(f"logger.debug('enter %s', {node.name!r})").body[0]
+        i = 1 if node.body and isinstance(node.body[0], ast.Expr) and isinstance(node.body[0].value, ast.Constant) and isinstance(node.body[0].value.value, str) else 0
+        node.body.insert(i, stmt)
+        return node
+
+    visit_AsyncFunctionDef = visit_FunctionDef
+
+
 def overlays(root: str) -> dict[str, dict[str, str]]:
-    un, rn = {}, {}
+    un, rn, lg = {}, {}, {}
     for dp, _dn, fn in os.walk(os.path.join(root, "sharepoint2text")):
         if "tests" in dp.split(os.sep):
             continue
@@ -60,4 +72,6 @@ def overlays(root: str) -> dict[str, dict[str, str]]:
                 continue
             un[rel] = ast.unparse(tree) + "\n"
             rn[rel] = ast.unparse(_Ren().visit(ast.parse(src))) + "\n"
-    return {"whole-tree-unparse": un, "whole-tree-local-rename": rn}
+            if any(isinstance(n, ast.Assign) and any(isinstance(t, ast.Name) and t.id == "logger" for t in n.targets) for n in tree.body):
+                lg[rel] = ast.unparse(ast.fix_missing_locations(_Log().visit(ast.parse(src)))) + "\n"
+    return {"whole-tree-unparse": un, "whole-tree-local-rename": rn, "whole-tree-debug-log": lg}
